@@ -258,6 +258,9 @@ def run(ctx):
     ])
     from props import fringe
     fringe.empty_pattern(ctx)
+    from props import glue
+    glue.realpath_follows_fs(ctx)
+    glue.dirfd_dangling(ctx)
     return ctx.finish(RULE)
 
 
